@@ -114,7 +114,8 @@ def read_cpp(out):
         for blk in re.findall(r'extern "C" \{(.*?)\n\s*\} // extern "C"', txt, re.S):
             blk = re.sub(r"typedef struct[^;]*?\{.*?\}\s*\w+;", "", blk, flags=re.S)
             decl.update(m[0] for m in PROTO.findall(blk))
-        used.update(re.findall(r"capi::([A-Za-z_]\w*)\s*\(", txt))
+        # (a callback struct member `capi::St (*run_callback)(...)` names a return type, not a function)
+        used.update(re.findall(r"capi::([A-Za-z_]\w*)\s*\((?!\s*\*)", txt))
     return decl, used
 
 
